@@ -1654,4 +1654,179 @@ Section SemSim.
       unfold zlength. rewrite Nat2Z.id, <- (r_flen _ _ _ _ _ HR), nth_error_app2, Nat.sub_diag by lia. reflexivity.
     - split; [exact (Rel3_newfun Sall E F sst y clo fe HR HS HC)|]. split; [reflexivity|]. split; [cbn; lia|auto].
   Qed.
+
+  (** ** Calls: a fresh activation, and the caller resumed intact *)
+
+  Fixpoint cells_from (p : positive) (n : nat) : list positive :=
+    match n with O => [] | S n' => p :: cells_from (Pos.succ p) n' end.
+
+  Lemma cells_from_length : forall n p, length (cells_from p n) = n.
+  Proof. induction n as [|n IH]; intros p; cbn [cells_from length]; [reflexivity|]. rewrite IH. reflexivity. Qed.
+
+  Lemma cells_from_in : forall n p c, In c (cells_from p n) -> (p <= c)%positive /\ (Zpos c < Zpos p + Z.of_nat n).
+  Proof.
+    induction n as [|n IH]; intros p c H; cbn [cells_from] in H; [destruct H|].
+    destruct H as [<-|H]; [lia|]. destruct (IH _ _ H). lia.
+  Qed.
+
+  Lemma cells_from_nodup : forall n p, NoDup (cells_from p n).
+  Proof.
+    induction n as [|n IH]; intros p; cbn [cells_from]; constructor; [|apply IH].
+    intros H. destruct (cells_from_in _ _ _ H). lia.
+  Qed.
+
+  (* the parameters of a fresh activation: one new cell each, bound by position, missing ones null *)
+  Lemma sem_bind_spec : forall ps vs acc sst,
+    exists sst', sem_bind ps vs acc sst = (rev (combine ps (cells_from (st_next sst) (length ps))) ++ acc, sst') /\
+      st_heap sst' = st_heap sst /\ st_funs sst' = st_funs sst /\ st_out sst' = st_out sst /\
+      Zpos (st_next sst') = Zpos (st_next sst) + Z.of_nat (length ps) /\
+      (forall c, (c < st_next sst)%positive -> PM.find c (st_cells sst') = PM.find c (st_cells sst)) /\
+      (forall i, (i < length ps)%nat ->
+         get_cell (nth i (cells_from (st_next sst) (length ps)) 1%positive) sst' = nth i vs VNull) /\
+      ((forall c, (st_next sst <= c)%positive -> PM.find c (st_cells sst) = None) ->
+       forall c, (st_next sst' <= c)%positive -> PM.find c (st_cells sst') = None).
+  Proof.
+    induction ps as [|p ps IH]; intros vs acc sst.
+    - exists sst. cbn [sem_bind length cells_from combine rev app]. repeat (split; [first [reflexivity|lia]|]).
+      split; [auto|]. split; [intros i Hi; cbn [length] in Hi; lia|auto].
+    - cbn [sem_bind]. unfold new_cell.
+      set (cl := st_next sst).
+      set (v := match vs with v :: _ => v | [] => VNull end). set (vs' := match vs with _ :: r => r | [] => [] end).
+      assert ((let '(v0, vs0) := match vs with v0 :: r => (v0, r) | [] => (VNull, []) end in
+               sem_bind ps vs0 ((p, cl) :: acc)
+                 (set_cell cl v0 (mkSt (st_heap sst) (st_cells sst) (Pos.succ cl) (st_funs sst) (st_out sst))))
+              = sem_bind ps vs' ((p, cl) :: acc)
+                 (set_cell cl v (mkSt (st_heap sst) (st_cells sst) (Pos.succ cl) (st_funs sst) (st_out sst)))) as ->
+        by (destruct vs; reflexivity).
+      set (s1 := set_cell cl v (mkSt (st_heap sst) (st_cells sst) (Pos.succ cl) (st_funs sst) (st_out sst))).
+      destruct (IH vs' ((p, cl) :: acc) s1) as [sst' [E1 [E2 [E3 [E4 [E5 [E6 [E7 E8]]]]]]]].
+      exists sst'. cbn [length cells_from combine rev]. fold cl.
+      change (st_next s1) with (Pos.succ cl) in *.
+      split; [rewrite E1, <- app_assoc; reflexivity|]. split; [exact E2|]. split; [exact E3|]. split; [exact E4|].
+      split; [rewrite E5; lia|]. split.
+      { intros c Hc. rewrite E6 by lia. unfold s1. cbn [set_cell st_cells]. apply PM.gso. lia. }
+      split.
+      { intros i Hi. destruct i as [|i].
+        - cbn [nth]. unfold get_cell. rewrite E6 by lia. unfold s1. cbn [set_cell st_cells]. rewrite PM.gss.
+          unfold v. destruct vs; reflexivity.
+        - cbn [nth]. rewrite E7 by lia. unfold vs'. destruct vs; [destruct i; reflexivity|reflexivity]. }
+      intros Hun c Hc. apply E8; [|exact Hc].
+      intros c0 Hc0. unfold s1. cbn [set_cell st_cells]. rewrite PM.gso by lia. apply Hun. lia.
+  Qed.
+
+  Lemma nth_combine_fst : forall (ps : list text) (cs : list positive) i p c,
+    nth_error (combine ps cs) i = Some (p, c) -> nth_error cs i = Some c.
+  Proof.
+    induction ps as [|a ps IH]; intros cs i p c H; [destruct i; discriminate H|].
+    destruct cs as [|b cs]; [destruct i; discriminate H|]. destruct i as [|i]; cbn [combine nth_error] in *.
+    - inversion H; reflexivity.
+    - exact (IH cs i p c H).
+  Qed.
+
+  Lemma map_snd_combine : forall (ps : list text) (cs : list positive), length ps = length cs -> map snd (combine ps cs) = cs.
+  Proof.
+    induction ps as [|a ps IH]; intros cs H; destruct cs as [|b cs]; try discriminate H; [reflexivity|].
+    cbn [combine map snd]. rewrite IH by (cbn [length] in H; lia). reflexivity.
+  Qed.
+  Lemma map_fst_combine : forall (ps : list text) (cs : list positive), length ps = length cs -> map fst (combine ps cs) = ps.
+  Proof.
+    induction ps as [|a ps IH]; intros cs H; destruct cs as [|b cs]; try discriminate H; [reflexivity|].
+    cbn [combine map fst]. rewrite IH by (cbn [length] in H; lia). reflexivity.
+  Qed.
+
+  (* the environment of the callee *)
+  Definition callee_env (E : cenv) (nf : nat) (dl : decls) (N : nat) : cenv :=
+    mkCE MFun (ce_ds E) dl nf (ce_L E) (ce_gh E) [] N.
+
+  Lemma call_enter : forall E F sst y ps vs vs' n nf sst1,
+    Rel3 Sall E F sst y -> Forall2 (vrel F) vs vs' -> (length vs <= length ps)%nat -> (Z.of_nat (length ps) <= n) ->
+    snd (sem_bind ps vs [] sst) = sst1 ->
+    let dl := combine ps (cells_from (st_next sst) (length ps)) in
+    let y0 := mkY (y_m y) (vs' ++ repeat_val VNull (Z.to_nat (n - zlength vs'))) (y_funs y) in
+    fst (sem_bind ps vs [] sst) = rev dl /\
+    Rel3 Sall (callee_env E nf dl (Z.to_nat n)) F sst1 y0 /\
+    st_out sst1 = st_out sst /\ (st_next sst <= st_next sst1)%positive /\
+    (forall c, (c < st_next sst)%positive -> PM.find c (st_cells sst1) = PM.find c (st_cells sst)) /\
+    (forall c, In c (map snd dl) -> (st_next sst <= c)%positive).
+  Proof.
+    intros E F sst y ps vs vs' n nf sst1 HR HV Hlen Hn Hb dl y0.
+    destruct (sem_bind_spec ps vs [] sst) as [sst' [E1 [E2 [E3 [E4 [E5 [E6 [E7 E8]]]]]]]].
+    rewrite E1 in Hb. cbn [snd] in Hb. subst sst'. rewrite E1. cbn [fst]. rewrite app_nil_r.
+    pose proof (cells_from_length (length ps) (st_next sst)) as Lc.
+    assert (map snd dl = cells_from (st_next sst) (length ps)) as Msnd by (apply map_snd_combine; lia).
+    assert (forall c, In c (map snd dl) -> (st_next sst <= c)%positive) as Hfresh.
+    { intros c Hin. rewrite Msnd in Hin. exact (proj1 (cells_from_in _ _ _ Hin)). }
+    split; [reflexivity|]. split; [|split; [exact E4|split; [lia|split; [exact E6|exact Hfresh]]]].
+    destruct HR as [R1 R2 R3 R4 R5 R6 R7 R8 R9 R10 R11 R12 R13 R14].
+    assert (length vs' = length vs) as Lvs by (symmetry; exact (Forall2_length HV)).
+    constructor; cbn [callee_env ce_mode ce_ds ce_dl ce_nf ce_L ce_gh ce_lh ce_N y0 y_m y_loc y_funs]; auto.
+    - congruence.
+    - rewrite map_app, Msnd. rewrite map_app in R4. apply NoDup_app_l in R4.
+      clear - R4 R7 Lc. induction (map snd (ce_ds E)) as [|a l IH]; cbn [app].
+      + apply cells_from_nodup.
+      + inversion R4; subst. constructor.
+        * intros Hin. apply in_app_or in Hin. destruct Hin as [Hin|Hin]; [contradiction|].
+          destruct (cells_from_in _ _ _ Hin) as [Hge _].
+          assert (a < st_next sst)%positive by (apply R7; rewrite map_app; apply in_or_app; left; left; reflexivity). lia.
+        * apply IH; [assumption|]. intros c Hc. apply R7. rewrite map_app in *. apply in_app_or in Hc.
+          apply in_or_app. destruct Hc as [Hc|Hc]; [left; right; exact Hc|right; exact Hc].
+    - intros i x c Hi Hn'. unfold get_cell. rewrite E6.
+      + exact (R5 i x c Hi Hn').
+      + apply R7. rewrite map_app. apply in_or_app. left. apply in_map_iff. exists (x, c). split; [reflexivity|exact (nth_error_In _ _ Hi)].
+    - intros i x c Hi _.
+      assert (i < length ps)%nat as Hip.
+      { assert (i < length dl)%nat by (apply nth_error_Some; rewrite Hi; discriminate). unfold dl in H.
+        rewrite combine_length, Lc in H. lia. }
+      pose proof (nth_combine_fst _ _ _ _ _ Hi) as Hc.
+      assert (c = nth i (cells_from (st_next sst) (length ps)) 1%positive) as -> by (symmetry; apply nth_error_nth; exact Hc).
+      rewrite (E7 i Hip).
+      destruct (Nat.lt_ge_cases i (length vs)) as [Hlt|Hge].
+      + rewrite app_nth1 by lia.
+        assert (forall (l1 l2 : list val), Forall2 (vrel F) l1 l2 -> forall j, (j < length l1)%nat ->
+                  vrel F (nth j l1 VNull) (nth j l2 VNull)) as Hf2.
+        { intros l1 l2 H2. induction H2 as [|a b l1 l2 Hab _ IH2]; intros j Hj; [cbn [length] in Hj; lia|].
+          destruct j; cbn [nth]; [exact Hab|apply IH2; cbn [length] in Hj; lia]. }
+        exact (Hf2 vs vs' HV i Hlt).
+      + rewrite (nth_overflow vs) by lia.
+        assert (nth i (vs' ++ repeat_val VNull (Z.to_nat (n - zlength vs'))) VNull = VNull) as ->.
+        { rewrite app_nth2 by lia. apply nth_repeat_val. }
+        apply vrel_null.
+    - intros c Hin. rewrite map_app in Hin. apply in_app_or in Hin. destruct Hin as [Hin|Hin].
+      + assert (c < st_next sst)%positive by (apply R7; rewrite map_app; apply in_or_app; left; exact Hin). lia.
+      + rewrite Msnd in Hin. destruct (cells_from_in _ _ _ Hin). lia.
+    - intros id fe Hn'. destruct (R10 id fe Hn') as [A [clo [B C]]]. split; [exact A|]. exists clo. split; [congruence|exact C].
+    - intros h [].
+    - rewrite app_length, length_repeat_val. unfold zlength. lia.
+  Qed.
+
+  Lemma call_exit : forall E E' F X sst sst1 sst' y y3 nf dl N,
+    Rel3 Sall E F sst y -> Rel3 Sall E' (F ++ X) sst' y3 -> env_ext (callee_env E nf dl N) E' ->
+    frame (callee_env E nf dl N) sst1 sst' ->
+    st_out sst1 = st_out sst -> (st_next sst <= st_next sst1)%positive ->
+    (forall c, (c < st_next sst)%positive -> PM.find c (st_cells sst1) = PM.find c (st_cells sst)) ->
+    (forall c, In c (map snd dl) -> (st_next sst <= c)%positive) ->
+    Rel3 Sall E (F ++ X) sst' (mkY (y_m y3) (y_loc y) (y_funs y3)) /\ frame E sst sst'.
+  Proof.
+    intros E E' F X sst sst1 sst' y y3 nf dl N HR HR' [X1 [X2 [X3 [X4 [X6 X5]]]]] [Fo [Fn Ff]] Ho Hn1 Hf1 Hfresh.
+    cbn [callee_env ce_mode ce_ds ce_dl ce_nf ce_L ce_gh ce_lh ce_N] in *.
+    destruct X5 as [_ [Hds HL]].
+    destruct HR as [R1 R2 R3 R4 R5 R6 R7 R8 R9 R10 R11 R12 R13 R14].
+    destruct HR' as [Q1 Q2 Q3 Q4 Q5 Q6 Q7 Q8 Q9 Q10 Q11 Q12 Q13 Q14].
+    rewrite Hds, HL, X3 in *.
+    assert (forall c, (c < st_next sst)%positive -> ~ In c (map snd (ce_ds E)) ->
+              PM.find c (st_cells sst') = PM.find c (st_cells sst)) as Hkeep.
+    { intros c Hc Hnd. rewrite Ff; [apply Hf1; exact Hc|lia|].
+      rewrite map_app. intros Hin. apply in_app_or in Hin. destruct Hin as [Hin|Hin]; [exact (Hnd Hin)|].
+      specialize (Hfresh c Hin). lia. }
+    split.
+    - constructor; cbn [y_m y_loc y_funs]; auto.
+      + intros i x c Hi Hnh. unfold get_cell. rewrite Hkeep.
+        * apply vrel_mono. exact (R6 i x c Hi Hnh).
+        * apply R7. rewrite map_app. apply in_or_app. right. apply in_map_iff. exists (x, c). split; [reflexivity|exact (nth_error_In _ _ Hi)].
+        * rewrite map_app in R4. intros Hin. apply (NoDup_app_disj _ _ _ c R4 Hin).
+          apply in_map_iff. exists (x, c). split; [reflexivity|exact (nth_error_In _ _ Hi)].
+      + intros c Hin. specialize (R7 c Hin). lia.
+    - split; [congruence|]. split; [lia|]. intros c Hc Hnin. apply Hkeep; [exact Hc|].
+      intros Hin. apply Hnin. rewrite map_app. apply in_or_app. left. exact Hin.
+  Qed.
 End SemSim.
